@@ -110,6 +110,61 @@ func MapObjB(id string) *Spec {
 	}}
 }
 
+// MapObjAll is a map-based object with one optional property per representative leaf type; MapObjColl has a list
+// and a string-keyed map of each. They put every leaf kind inside objects, and (as one-of members) behind the
+// one-of's own validation path.
+func MapObjAll(id string) *Spec {
+	o := &Spec{Kind: KObject, ID: id}
+	for i, l := range RepLeaves() {
+		if l.Kind == KTypedEnum {
+			continue // kept apart (MapObjTyped): schemas with typed enums cannot describe themselves
+		}
+		o.Props = append(o.Props, Prop{Name: fmt.Sprintf("p%d", i), Type: l.Clone()})
+	}
+	return o
+}
+
+func MapObjTyped(id string) *Spec {
+	te := &Spec{Kind: KTypedEnum, EnumS: []string{"a", "b"}}
+	return &Spec{Kind: KObject, ID: id, Props: []Prop{
+		{Name: "t", Type: te.Clone()},
+		{Name: "lt", Type: &Spec{Kind: KList, Item: te.Clone(), Max: I64(2)}},
+		{Name: "mt", Type: &Spec{Kind: KMap, Key: &Spec{Kind: KString, Min: I64(1)}, Val: te.Clone()}},
+	}}
+}
+
+func MapObjColl(id string) *Spec {
+	o := &Spec{Kind: KObject, ID: id}
+	for i, l := range RepLeaves() {
+		if l.Kind == KTypedEnum {
+			continue
+		}
+		o.Props = append(o.Props, Prop{Name: fmt.Sprintf("l%d", i), Type: &Spec{Kind: KList, Item: l.Clone(), Max: I64(2)}})
+		o.Props = append(o.Props, Prop{Name: fmt.Sprintf("m%d", i), Type: &Spec{Kind: KMap, Key: &Spec{Kind: KString, Min: I64(1)}, Val: l.Clone()}})
+	}
+	return o
+}
+
+// OneOfAllSpecs: string and int keys x inlined / not, members MapObjAll and MapObjColl.
+func OneOfAllSpecs() []*Spec {
+	var out []*Spec
+	for _, k := range []Kind{KOneOfStr, KOneOfInt} {
+		for _, inl := range []bool{false, true} {
+			a, b := MapObjAll("All"), MapObjColl("Coll")
+			if inl {
+				a, b = withDiscriminator(a, "_type", k), withDiscriminator(b, "_type", k)
+			}
+			out = append(out, &Spec{Kind: k, Discriminator: "_type", Inlined: inl, Members: []Member{
+				{KeyS: "a", KeyI: 1, Type: a}, {KeyS: "b", KeyI: 2, Type: b},
+			}})
+		}
+	}
+	out = append(out, &Spec{Kind: KOneOfStr, Discriminator: "_type", Members: []Member{
+		{KeyS: "a", KeyI: 1, Type: MapObjTyped("Typed")}, {KeyS: "b", KeyI: 2, Type: MapObjB("B")},
+	}})
+	return out
+}
+
 func withDiscriminator(o *Spec, name string, k Kind) *Spec {
 	c := o.Clone()
 	t := &Spec{Kind: KString}
@@ -242,6 +297,8 @@ func Depth1() []*Spec {
 	out = append(out, ShapeSpecs()...)
 	out = append(out, OneOfSpecs()...)
 	out = append(out, ScopeSpecs()...)
+	out = append(out, MapObjAll("All"), MapObjColl("Coll"), MapObjTyped("Typed"))
+	out = append(out, OneOfAllSpecs()...)
 	return out
 }
 
